@@ -245,6 +245,18 @@ def generic_probe(sh, ctor, leaf, src, T, ns):
             continue
         if not holds(r, item):
             sh.violation("generic-class-field-lost", annotation=src, direction=direction, input=short(x, 120), got=short(r, 200))
+    # the other parametrisations of the same class, built AFTER this one, still follow their own arguments
+    sentinel = object()
+    for sib_src, sib, given, want in ((f"{cls.__name__}[str]", cls[str], 5, "5"), (cls.__name__, cls, sentinel, sentinel), (f"{cls.__name__}[int]", cls[int], "7", 7)):
+        sh.count("sibling_parametrisations_checked")
+        try:
+            with quiet():
+                r = typelib.unmarshal(sib, {"item": given})
+            got = getattr(r, "item", "<no item>")
+            if not (got is want or (type(got) is type(want) and got == want)):
+                sh.violation("generic-parametrisations-interfere", annotation=src, sibling=sib_src, input=short(given, 60), got=short(got, 80), expected=short(want, 80))
+        except Exception as e:  # noqa: BLE001
+            sh.violation("generic-parametrisations-interfere", annotation=src, sibling=sib_src, input=short(given, 60), got=f"raised {type(e).__name__}: {e}"[:160])
 
 
 WARMERS = None
